@@ -135,10 +135,76 @@ func discharge(vc *VC, dir string, tag string, workers int, quick, slow int) {
 			default:
 				o.Status = "unknown"
 			}
-			if o.Status == "discharged" || o.Status == "cover-ok" {
+			if (o.Status == "discharged" || o.Status == "cover-ok") && os.Getenv("GOVC_KEEP") == "" {
 				os.Remove(file)
 			}
 		}()
 	}
 	wg.Wait()
+}
+
+// dischargeBatch: first pass in one incremental z3 process (push/pop per obligation, in
+// script order); whatever it does not settle goes to the per-obligation race.
+func dischargeBatch(vc *VC, dir string, tag string, workers int, quick, slow int) {
+	os.MkdirAll(dir, 0o755)
+	if len(vc.obls) == 0 {
+		return
+	}
+	// obligations are created in script order, so prefixes are nested
+	idx := make([]int, len(vc.obls))
+	for i := range idx {
+		idx[i] = i
+	}
+	var b strings.Builder
+	b.WriteString(fmt.Sprintf("(set-option :timeout %d)\n(set-logic ALL)\n", quick*1000))
+	pos := 0
+	for _, o := range vc.obls {
+		for ; pos < o.Prefix; pos++ {
+			b.WriteString(vc.S.lines[pos])
+			b.WriteString("\n")
+		}
+		b.WriteString("(push 1)\n")
+		if o.Cover {
+			b.WriteString("(assert " + o.Reach + ")\n")
+		} else {
+			b.WriteString("(assert " + and(o.Reach, not(o.Goal)) + ")\n")
+		}
+		b.WriteString("(check-sat)\n(pop 1)\n")
+	}
+	file := filepath.Join(dir, sanitize(tag)+"_batch.smt2")
+	os.WriteFile(file, []byte(b.String()), 0o644)
+	t0 := time.Now()
+	ctx, cancel := context.WithTimeout(context.Background(), time.Duration(quick*len(vc.obls)+30)*time.Second)
+	out, _ := exec.CommandContext(ctx, "z3-new", file).CombinedOutput()
+	cancel()
+	el := time.Since(t0).Seconds()
+	var answers []string
+	for _, ln := range strings.Split(string(out), "\n") {
+		ln = strings.TrimSpace(ln)
+		if ln == "sat" || ln == "unsat" || ln == "unknown" {
+			answers = append(answers, ln)
+		}
+	}
+	var rest []*Obligation
+	for i, o := range vc.obls {
+		a := "unknown"
+		if i < len(answers) {
+			a = answers[i]
+		}
+		o.Solver, o.Secs = "z3-5.1.0", el/float64(len(vc.obls))
+		switch {
+		case o.Cover && a == "sat":
+			o.Status = "cover-ok"
+		case !o.Cover && a == "unsat":
+			o.Status = "discharged"
+		default:
+			rest = append(rest, o)
+		}
+	}
+	if len(rest) == 0 {
+		os.Remove(file)
+		return
+	}
+	sub := &VC{S: vc.S, obls: rest}
+	discharge(sub, dir, tag, workers, quick, slow)
 }
